@@ -812,6 +812,14 @@ def _r1(ctx, rm, pkg):
             for gd in f.guards:
                 for sg in split_guard(gd):
                     c, pol = norm_guard((simp(sg[0]), sg[1]))
+                    if c[0] == "cmp" and c[1] == ("In",) and len(c[2]) == 2 and not pol and c[2][0] == ("attr", ("param", pname), "reaction_type") \
+                            and c[2][1][0] in ("tuple", "list", "set") and c[2][1][1]:
+                        # `if reac.reaction_type not in (A, ..): raise`: refuses every type outside the display
+                        members = [rm.enum_of_ir("Grain", y) for y in c[2][1][1]]
+                        if tau in members:
+                            ok = True
+                        elif all(m_ is not None for m_ in members):
+                            other += members
                     if c[0] == "cmp" and c[1] in (("Eq",), ("Is",)) and len(c[2]) == 2 and not pol:
                         a, b = c[2]
                         for x, y in ((a, b), (b, a)):
@@ -1339,3 +1347,23 @@ def _r12_tunnelling(ctx, pkg):
                         "barrier-tunnelling terms that Hasegawa & Herbst 1993 give to atomic and molecular hydrogen only", expected="<reactant>.name in ['GH', 'GH2']", found=src[:100])
     ctx.floor("R12", "name-based tunnelling selections", n_ok, 1, (HF, ci.node.lineno))
 
+
+# ---- wave 4: everyday spellings of the eb_ loops, the base validation and the accretion arms
+_EB_C = '{% for s in network.species | selectattr("is_surface") -%}\n{{ spec }} double eb_{{ s.alias }} = {{ s.eb }};\n{% endfor %}\n'
+_EB_H = '{% for s in network.species | selectattr("is_surface") -%}\nextern {{ spec }} double eb_{{ s.alias }};\n{% endfor %}\n'
+BENIGN += [
+    {"name": "eb-loop-condition-instead-of-selectattr", "edits": [
+        {"file": CONST_C, "old": _EB_C, "new": '{% for ice in network.species if ice.is_surface -%}\n{{ spec }} double eb_{{ ice.alias }} = {{ ice.eb }};\n{% endfor %}\n'},
+        {"file": CONST_H, "old": _EB_H, "new": '{% for ice in network.species if ice.is_surface -%}\nextern {{ spec }} double eb_{{ ice.alias }};\n{% endfor %}\n'}]},
+    {"name": "eb-if-inside-the-loop", "edits": [
+        {"file": CONST_C, "old": _EB_C, "new": '{% for s in network.species -%}\n{% if s.is_surface -%}\n{{ spec }} double eb_{{ s.alias }} = {{ s.eb }};\n{% endif -%}\n{% endfor %}\n'},
+        {"file": CONST_H, "old": _EB_H, "new": '{% for s in network.species -%}\n{% if s.is_surface -%}\nextern {{ spec }} double eb_{{ s.alias }};\n{% endif -%}\n{% endfor %}\n'}]},
+    {"name": "eb-ice-list-set-once", "file": CONST_C, "old": _EB_C, "new": '{% set ices = network.species | selectattr("is_surface") | list -%}\n{% for ice in ices -%}\n{% set energy = ice.eb -%}\n{{ spec }} double eb_{{ ice.alias }} = {{ energy }};\n{% endfor %}\n'},
+    {"name": "base-validation-spelled-is-not", "file": GR, "old": "        if reac.reaction_type != ReactionType.GRAIN_FREEZE:", "new": "        if reac.reaction_type is not ReactionType.GRAIN_FREEZE:"},
+    {"name": "rr07-accreting-species-unpacked", "file": RR, "old": "        super().rate_depletion(reac)\n\n        spec = reac.reactants[0]\n", "new": "        _ = super().rate_depletion(reac)\n\n        (spec,) = reac.reactants\n"},
+]
+MUTANTS += [
+    {"name": "eb-only-for-strongly-bound-ices", "file": CONST_C, "old": _EB_C, "new": _EB_C.replace(" -%}\n{{ spec", " if s.eb > 1000 -%}\n{{ spec", 1), "rules": ["R6"]},
+    {"name": "eb-for-the-gas-species", "file": CONST_C, "old": _EB_C, "new": _EB_C.replace('selectattr("is_surface")', 'rejectattr("is_surface")'), "rules": ["R6"]},
+    {"name": "eb-if-inside-the-loop-negated", "file": CONST_C, "old": _EB_C, "new": '{% for s in network.species -%}\n{% if not s.is_surface -%}\n{{ spec }} double eb_{{ s.alias }} = {{ s.eb }};\n{% endif -%}\n{% endfor %}\n', "rules": ["R6"]},
+]
